@@ -44,7 +44,7 @@ ASSUMPTIONS = [
 REQUIRED = ["op_get_subtree", "op_node_subtree", "op_to_subtree", "op_cut_enter", "op_cut_leave",
             "op_cut_type", "op_cut_order", "op_cut_tip", "op_neurites", "op_dendrites",
             "transform_instance_reused", "numpy_scalar_node_ids", "removals_as_iterator_or_set",
-            "mappings_checked", "mapping_container_reused", "tip_exact_threshold_cases", "exhaustive_subsets",
+            "mappings_checked", "mapping_container_reused", "transform_reused_after_aborted_call", "tip_exact_threshold_cases", "exhaustive_subsets",
             "tap_to_sub_topology", "tap_propagate_removal", "tap_get_subtree_impl"]
 FLOOR = {"quick": 2500, "thorough": 50000}
 SHARDS = {"quick": 8, "thorough": 16}
@@ -351,6 +351,28 @@ def _op_cut_tip(ctx, case, spec, tree):
     cb = (lambda br: reported.append(tuple(int(i) for i in br.origin_id()))) \
         if case.get("callback") else None
     tr = CutShortTipBranch(thre, callback=cb)
+    if cb is not None and case.get("abort_first", True) and thre > 0:
+        # an earlier use of this transform object that the caller's own callback stopped with an
+        # exception (on another tree, which has one short terminal branch)
+        from swcgeom.core import Tree
+
+        class _Stop(Exception):
+            pass
+
+        def boom(br):
+            raise _Stop()
+
+        tr.callbacks[0] = boom
+        t_ = float(thre)
+        other = Tree(4, pid=np.array([-1, 0, 0, 2], dtype=np.int32),
+                     x=np.array([0, t_ * 0.5, 0, 0], dtype=np.float32),
+                     y=np.array([0, 0, t_ * 3, t_ * 6], dtype=np.float32),
+                     tag=np.array([-1, -2, -3, -4], dtype=np.int32))
+        try:
+            tr(other)
+        except _Stop:
+            ctx.count("transform_reused_after_aborted_call")
+        tr.callbacks[0] = cb
     _warm_up(ctx, case, tr)
     del reported[:]  # (branches reported for the decoy are not this tree's)
     out = tr(tree)
